@@ -127,6 +127,13 @@ func (e *specEnv) eval(x Expr) Val {
 				return Val{S: s, Sort: sortOf(t), T: t}
 			}
 		}
+		if tp := w.tpkgs[e.pkg]; tp != nil && e.st != nil {
+			if vo, ok := tp.Scope().Lookup(n.Name).(*types.Var); ok {
+				a := &Addr{Kind: "mem", Class: "g:" + e.pkg + "." + n.Name, Ref: "0", Elem: vo.Type()}
+				e.st.x.w.declClass(a.Class, "(Array Int "+sortOf(vo.Type())+")")
+				return e.st.loadFrom(e.heap, a, vo.Type())
+			}
+		}
 		e.fail("unknown identifier %s", n.Name)
 	case EField:
 		// qualified constant?
@@ -530,6 +537,33 @@ func (e *specEnv) evalCall(n ECall) Val {
 		key := exprString(n.Args[0])
 		_ = key
 		e.fail("held() not supported in this position")
+	case "hex":
+		// hex(b): lower-case hex rendering of a byte slice (same uninterpreted function fmt.Sprintf("%0x") uses)
+		v := e.eval(n.Args[0])
+		if v.Sort != "Slice" || e.st == nil {
+			e.fail("hex() of non-slice")
+		}
+		w.declUF("hexstr", "(declare-fun hexstr ((Array Int Int) Int Int) String)")
+		cls := e.st.elemClass(types.Typ[types.Uint8])
+		return Val{S: "(hexstr (select " + e.heapTerm(cls) + " (sarr " + v.S + ")) (soff " + v.S + ") (slen " + v.S + "))", Sort: "String"}
+	case "funcis":
+		// funcis(f, "name"): the function value f is the named function / bound method
+		v := e.eval(n.Args[0])
+		nm, ok := n.Args[1].(EStr)
+		if !ok || e.st == nil {
+			e.fail("funcis(f, \"name\")")
+		}
+		full := nm.V
+		for short, path := range w.short[e.pkg] {
+			full = strings.ReplaceAll(full, "*"+short+".", "*"+path+".")
+		}
+		fn := quoteSym("fn:" + full)
+		w.declUF(fn, "(declare-fun "+fn+" () Int)")
+		t := v.S
+		if t == "" && (v.Clo != nil || v.Fn != nil) {
+			t = e.st.x.funcTerm(e.st, v)
+		}
+		return Val{S: sEq(t, fn), Sort: "Bool"}
 	case "cast":
 		// cast(x, T): view a reference (pointer, interface payload or ghost ref) as *T, T a struct type name
 		v := e.eval(n.Args[0])
